@@ -63,6 +63,12 @@ func c08Prelude() []zn.Stmt {
 			zn.If{Cond: bin("==", v("M"), num(0)), Then: []zn.Stmt{ret(bin("+", v("N"), num(1)))}},
 			zn.If{Cond: bin("==", v("N"), num(0)), Then: []zn.Stmt{ret(zn.Call{Name: "阿", Args: []zn.Expr{bin("-", v("M"), num(1)), num(1)}})}},
 			ret(zn.Call{Name: "阿", Args: []zn.Expr{bin("-", v("M"), num(1)), zn.Call{Name: "阿", Args: []zn.Expr{v("M"), bin("-", v("N"), num(1))}}}})}},
+		// tree recursion whose two results are bound with 得到 under the same two names in every call
+		zn.Func{Name: "斐得", Params: []string{"N"}, Body: []zn.Stmt{
+			zn.If{Cond: bin("<", v("N"), num(2)), Then: []zn.Stmt{ret(v("N"))}},
+			zn.ExprStmt{E: zn.Call{Name: "斐得", Args: []zn.Expr{bin("-", v("N"), num(1))}, Yield: "左"}},
+			zn.ExprStmt{E: zn.Call{Name: "斐得", Args: []zn.Expr{bin("-", v("N"), num(2))}, Yield: "右"}},
+			ret(bin("+", v("左"), v("右")))}},
 		zn.Func{Name: "探", Params: []string{"深"}, Body: []zn.Stmt{
 			zn.If{Cond: bin("<=", v("深"), num(0)), Then: []zn.Stmt{ret(num(0))}},
 			ret(bin("+", zn.Call{Name: "记", Args: []zn.Expr{v("深"), zn.Call{Name: "探", Args: []zn.Expr{bin("-", v("深"), num(1))}}}}, v("深")))}},
@@ -138,6 +144,13 @@ func c08Forms() []c08Form {
 		{"应用倍", 1, func(a []zn.Expr) zn.Expr { return call("应用", zn.Var{Name: "倍"}, a[0]) }},
 		{"试错", 1, func(a []zn.Expr) zn.Expr { return call("试错", a[0]) }},
 		{"O试错", 0, func(a []zn.Expr) zn.Expr { return mc1(O, "加", call("试错", zn.Num{Lit: "3"})) }},
+		{"斐得6", 0, func(a []zn.Expr) zn.Expr { return call("斐得", zn.Num{Lit: "6"}) }},
+		{"三链", 1, func(a []zn.Expr) zn.Expr {
+			return zn.MCall{Root: a[0], Chain: []zn.Call{{Name: "加", Args: []zn.Expr{zn.Num{Lit: "3"}}}, {Name: "乘", Args: []zn.Expr{zn.Num{Lit: "4"}}}, {Name: "减", Args: []zn.Expr{zn.Num{Lit: "1"}}}}}
+		}},
+		{"O四链", 1, func(a []zn.Expr) zn.Expr {
+			return zn.MCall{Root: O, Chain: []zn.Call{{Name: "加", Args: []zn.Expr{a[0]}}, {Name: "加", Args: []zn.Expr{zn.Num{Lit: "2"}}}, {Name: "乘", Args: []zn.Expr{zn.Num{Lit: "10"}}}, {Name: "减", Args: []zn.Expr{zn.Num{Lit: "5"}}}}}
+		}},
 		{"斐6", 0, func(a []zn.Expr) zn.Expr { return call("斐", zn.Num{Lit: "6"}) }},
 		{"阿22", 0, func(a []zn.Expr) zn.Expr { return call("阿", zn.Num{Lit: "2"}, zn.Num{Lit: "2"}) }},
 		{"探3", 0, func(a []zn.Expr) zn.Expr { return call("探", zn.Num{Lit: "3"}) }},
@@ -252,7 +265,7 @@ func c08Families(tier string) []c08Family {
 	var key []c08Form
 	for _, f := range all {
 		switch f.name {
-		case "一", "二", "二-1", "O加", "O推", "O访P", "O试P", "O无", "O之数", "P之表", "O加加", "新建型", "Q1升", "新建点", "斐6", "应用一", "应用倍", "试错":
+		case "一", "二", "二-1", "O加", "O推", "O访P", "O试P", "O无", "O之数", "P之表", "O加加", "新建型", "Q1升", "新建点", "斐6", "应用一", "应用倍", "试错", "三链", "斐得6":
 			key = append(key, f)
 		}
 	}
@@ -313,7 +326,7 @@ func init() {
 	mc.Register(&mc.Check{
 		ID:    "C08",
 		Level: "exploration",
-		Rule: "E1 exhaustive by rank/unrank: every program of m statements (显示 e | O之数 = e | 令N = e | （一：e）得到R | {e}) whose expressions e range over ALL call/object expressions up to the depth bound built from 38 forms (a method that calls the method it is given, called with two different methods; a method whose nested call fails on its argument count and is handled inside it while a top-level variable has the name of its input; methods of arity 0/1/2, recursion that re-enters one two-argument call expression while its later arguments are being evaluated (Fibonacci, Ackermann, a traced descent), a type whose default number is only ever changed in place (自增 through 其 and from outside, two instances plus fresh ones), in-place 自减 on a property, arity -1/+1 mismatches, recursion, methods of two instances of a type with scalar + list defaults and a constructor, 其 reads/writes, a method calling another object's method and then reading 其, a method whose nested call fails and is handled, 其自身, unknown method / property / function, chained 以…（…）、（…）, a built-in number method, 新建 with matching / missing / surplus arguments) with every leaf wrapped in a tracing call; final observation of both instances. Oracle: reference interpreter (ordered trace incl. argument evaluation order, error-ness). Distinct by construction; all non-trivial.",
+		Rule: "E1 exhaustive by rank/unrank: every program of m statements (显示 e | O之数 = e | 令N = e | （一：e）得到R | {e}) whose expressions e range over ALL call/object expressions up to the depth bound built from 41 forms (method chains of three and four links whose links return new values; tree recursion binding its two results with 得到 under the same names in every call; a method that calls the method it is given, called with two different methods; a method whose nested call fails on its argument count and is handled inside it while a top-level variable has the name of its input; methods of arity 0/1/2, recursion that re-enters one two-argument call expression while its later arguments are being evaluated (Fibonacci, Ackermann, a traced descent), a type whose default number is only ever changed in place (自增 through 其 and from outside, two instances plus fresh ones), in-place 自减 on a property, arity -1/+1 mismatches, recursion, methods of two instances of a type with scalar + list defaults and a constructor, 其 reads/writes, a method calling another object's method and then reading 其, a method whose nested call fails and is handled, 其自身, unknown method / property / function, chained 以…（…）、（…）, a built-in number method, 新建 with matching / missing / surplus arguments) with every leaf wrapped in a tracing call; final observation of both instances. Oracle: reference interpreter (ordered trace incl. argument evaluation order, error-ness). Distinct by construction; all non-trivial.",
 		Assumptions: []string{
 			"reference interpreter (manual ch.8) is the oracle; a method ending without 输出 is not asserted (none generated)",
 			"error codes are not compared across the call boundary",
